@@ -113,3 +113,12 @@ func init() {
 		regionSpec{fn: "consensus.validateV2FileContracts", name: "revisions", from: "for i, fcr := range txn.FileContractRevisions", to: "for i, fcr := range txn.FileContractResolutions"},
 	)
 }
+
+func init() {
+	// the top of v2 transaction validation: ValidateV2Transaction as a whole, calling the regenerated validateV2Siacoins,
+	// validateV2Siafunds, validateAttestations, validateFoundationUpdate; what is not generated is external
+	extFuncs[coreMod+"/consensus.validateV2CurrencyOverflow"] = "validateV2CurrencyOverflow"
+	extFuncs[coreMod+"/consensus.State.V2TransactionWeight"] = "V2TransactionWeight"
+	extFuncs[coreMod+"/consensus.validateV2FileContracts"] = "validateV2FileContracts"
+	tcodeRoots = append(tcodeRoots, "consensus.ValidateV2Transaction", "consensus.validateV2Siacoins", "consensus.validateV2Siafunds")
+}
